@@ -253,6 +253,9 @@ def _fit_rules(ctx, A, cls, m, fi, r, params, cfg, is_subject):
             lits = list(pc_literals(ev_.pc)) + [ev_.data.get("cond")] if ev_.kind == "branch" else list(pc_literals(ev_.pc))
             return any(x is not None and contains(x, lambda s: s.op == "attr" and s.args[1] == "warm_start") for x in lits)
         infl = [b for b in infl if not ws(b)]
+        if how.startswith("getattr") and not infl and r.final is not None:
+            # the value an earlier fit left (not just its presence) flows into the state this fit stores
+            infl = [e for (o_, a_), v_ in r.final.heap.items() if o_ is r.self_term and contains(v_, lambda s_: s_ is t)]
         if ws(e) and e.kind != "branch":
             infl = []
         if infl:
@@ -639,6 +642,9 @@ def _reload_completeness(ctx):
         for e, t, attr, how in existence_tests(r):
             infl = [b for b in r.events if b.kind == "branch" and b.data.get("folded") is None and b.seq > e.seq
                     and any(x is t for x in subterms(b.data["cond"]))]
+            if how.startswith("getattr") and not infl:
+                # the old value itself (not just a test of its presence) ends up in the state load_data leaves behind
+                infl = [1 for (o_, a_), v_ in r.final.heap.items() if o_ is r.self_term and contains(v_, lambda s_: s_ is t)]
             ctx.ob("R19.5", e.func, e.node, not infl,
                    f"{cls.split(':')[1]}.load_data tests for state of an earlier load ({how} {attr!r}) and branches on it: "
                    "reloading does not behave like loading into a fresh object" if infl else
